@@ -1,27 +1,499 @@
 package main
 
+// Verdicts, native replay of solver models, known findings, evidence.
+
 import (
+	"encoding/json"
 	"fmt"
+	"os"
+	"os/exec"
+	"path/filepath"
+	"sort"
+	"strings"
 	"time"
 )
 
-func report(r *Runner, prop, tier, evidence, known string, noReplay bool, loadT, total time.Duration) int {
-	code := 0
-	for _, name := range r.order {
-		st := r.stats[name]
-		fmt.Printf("%s: paths=%d completed=%d killed=%d aborted=%d queries=%d instrs=%d reached=%v wall=%v\n", name, st.Paths, st.Completed, st.Killed, st.Aborted, st.Queries, st.Instrs, st.Reached, st.Wall)
-		if st.Aborted > 0 {
-			fmt.Printf("  aborts=%v sample=%s\n", st.Aborts, st.AbortSample)
-			code = 2
+type KnownFinding struct {
+	Property  string `json:"property"`
+	Status    string `json:"status"` // "known" | "fixed"
+	Signature string `json:"signature"`
+	What      string `json:"what"`
+	Input     string `json:"input,omitempty"`
+	Commit    string `json:"commit,omitempty"`
+}
+
+type replayResult struct {
+	ID       int         `json:"id"`
+	Harness  string      `json:"harness"`
+	Ran      bool        `json:"ran"`
+	Failed   []string    `json:"failed"`
+	Panicked bool        `json:"panicked"`
+	PanicMsg string      `json:"panic_msg"`
+	Stack    string      `json:"stack"`
+	Killed   bool        `json:"killed"`
+	Reached  []string    `json:"reached"`
+	Observed [][2]string `json:"observed"`
+}
+
+type replayCaseOut struct {
+	ReplayCase
+	ID int `json:"id"`
+}
+
+// nativeReplay compiles the harnesses natively (go test -overlay) and runs the cases.
+func nativeReplay(w *World, workDir string, cases []replayCaseOut, tier string) (map[int]replayResult, string, error) {
+	if len(cases) == 0 {
+		return map[int]replayResult{}, "", nil
+	}
+	os.MkdirAll(workDir, 0o755)
+	// registry test file per package
+	byPkg := map[string]map[string]bool{}
+	for _, c := range cases {
+		if byPkg[c.Pkg] == nil {
+			byPkg[c.Pkg] = map[string]bool{}
 		}
-		for _, f := range st.Failures {
-			fmt.Printf("  FAIL %s %s: %s model=%v choices=%v\n", f.Kind, f.Label, f.Msg, modelStrings(f.Model, f.Vars), f.Choices)
-			code = 1
+		byPkg[c.Pkg][c.Harness] = true
+	}
+	replace := map[string]string{}
+	for target, real := range w.harnessFiles {
+		replace[target] = real
+	}
+	var pkgDirs []string
+	for pkg, hs := range byPkg {
+		rel := strings.TrimPrefix(strings.TrimPrefix(pkg, repoMod), "/")
+		p := w.ssaPk[pkg]
+		var names []string
+		for h := range hs {
+			names = append(names, h)
 		}
-		for _, s := range st.Samples {
-			fmt.Printf("  sample: %+v\n", s)
+		sort.Strings(names)
+		var sb strings.Builder
+		fmt.Fprintf(&sb, "package %s\n\nimport (\n\t\"testing\"\n\tnd \"%s/zz_verifnd\"\n)\n\n", p.Pkg.Name(), repoMod)
+		sb.WriteString("func TestVerifReplay(t *testing.T) {\n\terr := nd.RunReplay(" + fmt.Sprintf("%q", pkg) + ", map[string]func(){\n")
+		for _, n := range names {
+			fmt.Fprintf(&sb, "\t\t%q: %s,\n", n, n)
+		}
+		sb.WriteString("\t})\n\tif err != nil {\n\t\tt.Fatal(err)\n\t}\n}\n")
+		slug := strings.NewReplacer("/", "_", ".", "_").Replace(pkg)
+		real := filepath.Join(workDir, slug+"_replay_test.go")
+		if err := os.WriteFile(real, []byte(sb.String()), 0o644); err != nil {
+			return nil, "", err
+		}
+		replace[filepath.Join(w.repoDir, rel, "zz_verif_replay_test.go")] = real
+		if rel == "" {
+			pkgDirs = append(pkgDirs, ".")
+		} else {
+			pkgDirs = append(pkgDirs, "./"+rel)
 		}
 	}
-	fmt.Printf("load %v total %v\n", loadT, total)
-	return code
+	sort.Strings(pkgDirs)
+	ov, _ := json.Marshal(map[string]interface{}{"Replace": replace})
+	ovFile := filepath.Join(workDir, "overlay.json")
+	os.WriteFile(ovFile, ov, 0o644)
+	casesFile := filepath.Join(workDir, "cases.json")
+	cb, _ := json.Marshal(cases)
+	os.WriteFile(casesFile, cb, 0o644)
+	outBase := filepath.Join(workDir, "results.json")
+	matches, _ := filepath.Glob(outBase + ".*")
+	for _, m := range matches {
+		os.Remove(m)
+	}
+	args := append([]string{"test", "-vet=off", "-count=1", "-timeout", "300s", "-overlay", ovFile, "-run", "^TestVerifReplay$"}, pkgDirs...)
+	cmd := exec.Command("go", args...)
+	cmd.Dir = w.repoDir
+	cmd.Env = append(os.Environ(), "GOFLAGS=-mod=mod", "GOPROXY=off", "GOSUMDB=off", "GOTOOLCHAIN=local",
+		"VERIF_REPLAY="+casesFile, "VERIF_REPLAY_OUT="+outBase, "VERIF_TIER="+tier)
+	out, err := cmd.CombinedOutput()
+	log := string(out)
+	if err != nil {
+		return nil, log, fmt.Errorf("native replay failed: %v", err)
+	}
+	res := map[int]replayResult{}
+	matches, _ = filepath.Glob(outBase + ".*")
+	for _, m := range matches {
+		b, err := os.ReadFile(m)
+		if err != nil {
+			return nil, log, err
+		}
+		var rs []replayResult
+		if err := json.Unmarshal(b, &rs); err != nil {
+			return nil, log, err
+		}
+		for _, r := range rs {
+			res[r.ID] = r
+		}
+	}
+	return res, log, nil
+}
+
+func firstVal(m map[string]string) string {
+	for _, v := range m {
+		return v
+	}
+	return "."
+}
+
+type failureGroup struct {
+	sig   string
+	prop  string
+	f     Failure
+	h     string
+	pkg   string
+	hname string
+	count int
+}
+
+func signature(hname string, f Failure) string {
+	label := f.Label
+	if f.Kind == "panic" || f.Kind == "frame" {
+		// site = file:line:function -> keep file and function (line numbers move)
+		parts := strings.SplitN(label, ":", 3)
+		if len(parts) == 3 {
+			label = parts[0] + ":" + parts[2]
+		}
+	}
+	ch := ""
+	if len(f.Choices) > 0 {
+		ch = fmt.Sprint(f.Choices)
+	}
+	return fmt.Sprintf("%s|%s|%s|%s", hname, f.Kind, label, ch)
+}
+
+func report(r *Runner, prop, tier, evidence, known string, noReplay bool, loadT, total time.Duration) int {
+	w := r.w
+	t0 := time.Now()
+	inconclusive := []string{}
+	// ---- vacuity ----
+	for _, name := range r.order {
+		st := r.stats[name]
+		if st.Aborted > 0 {
+			inconclusive = append(inconclusive, fmt.Sprintf("%s: %d path(s) inconclusive %v e.g. %s", name, st.Aborted, st.Aborts, st.AbortSample))
+		}
+		if len(st.Reached) == 0 && st.Aborted == 0 && len(st.Failures) == 0 {
+			inconclusive = append(inconclusive, fmt.Sprintf("%s: vacuous (no path reached nd.Reach)", name))
+		}
+	}
+	// ---- group failures ----
+	groups := map[string]*failureGroup{}
+	var gorder []string
+	for _, name := range r.order {
+		st := r.stats[name]
+		hn := name[strings.LastIndex(name, ".")+1:]
+		pkg := name[:strings.LastIndex(name, ".")]
+		for _, f := range st.Failures {
+			sig := signature(hn, f)
+			g := groups[sig]
+			if g == nil {
+				g = &failureGroup{sig: sig, f: f, h: name, pkg: pkg, hname: hn}
+				groups[sig] = g
+				gorder = append(gorder, sig)
+			}
+			g.count++
+		}
+	}
+	// ---- native replay ----
+	var cases []replayCaseOut
+	id := 0
+	validateIDs := map[int]ReplayCase{}
+	groupIDs := map[string]int{}
+	for _, name := range r.order {
+		st := r.stats[name]
+		for _, rc := range st.ReplayCases {
+			id++
+			cases = append(cases, replayCaseOut{rc, id})
+			validateIDs[id] = rc
+		}
+	}
+	for _, sig := range gorder {
+		g := groups[sig]
+		id++
+		rc := ReplayCase{Harness: g.hname, Pkg: g.pkg, Vars: g.f.Vars, Choices: g.f.Choices, Outcome: g.f.Kind + ":" + g.f.Label}
+		for _, v := range g.f.Vars {
+			rc.Vals = append(rc.Vals, g.f.Model[v])
+		}
+		cases = append(cases, replayCaseOut{rc, id})
+		groupIDs[sig] = id
+	}
+	validated, mismatches := 0, 0
+	var results map[int]replayResult
+	replayLog := ""
+	workDir := filepath.Join(os.TempDir(), fmt.Sprintf("verif-replay-%s-%d", prop, os.Getpid()))
+	if !noReplay {
+		var err error
+		results, replayLog, err = nativeReplay(w, workDir, cases, tier)
+		if err != nil {
+			inconclusive = append(inconclusive, "native replay could not run: "+err.Error()+"\n"+tailStr(replayLog, 2000))
+		} else {
+			for cid, rc := range validateIDs {
+				res, ok := results[cid]
+				if !ok || !res.Ran {
+					inconclusive = append(inconclusive, fmt.Sprintf("replay of %s did not run", rc.Harness))
+					continue
+				}
+				okc := !res.Panicked && len(res.Failed) == 0 && !res.Killed && len(res.Observed) == len(rc.Observes)
+				if okc {
+					for i, o := range rc.Observes {
+						if res.Observed[i][0] != o.Label || res.Observed[i][1] != o.Text {
+							okc = false
+						}
+					}
+				}
+				if okc {
+					validated++
+				} else {
+					mismatches++
+					if mismatches <= 5 {
+						inconclusive = append(inconclusive, fmt.Sprintf("translator mismatch in %s: engine predicted ok/%v, native gave failed=%v panic=%v(%s) killed=%v observed=%v (vals %v choices %v)",
+							rc.Harness, rc.Observes, res.Failed, res.Panicked, res.PanicMsg, res.Killed, res.Observed, rc.Vals, rc.Choices))
+					}
+				}
+			}
+		}
+	}
+	// ---- known findings ----
+	var kf []KnownFinding
+	if b, err := os.ReadFile(known); err == nil {
+		if err := json.Unmarshal(b, &kf); err != nil {
+			inconclusive = append(inconclusive, "cannot parse known findings: "+err.Error())
+		}
+	}
+	knownSig := map[string]KnownFinding{}
+	for _, k := range kf {
+		if k.Status == "known" && k.Property == prop {
+			knownSig[k.Signature] = k
+		}
+	}
+	violations := 0
+	os.MkdirAll("/verif/evidence/replay", 0o755)
+	var violLines []string
+	var knownLines []string
+	var violSamples []map[string]interface{}
+	for _, sig := range gorder {
+		g := groups[sig]
+		confirmed := "unconfirmed"
+		detail := ""
+		if !noReplay && results != nil {
+			res, ok := results[groupIDs[sig]]
+			switch {
+			case !ok || !res.Ran:
+				confirmed = "not-run"
+			case g.f.Kind == "assert":
+				for _, l := range res.Failed {
+					if l == g.f.Label {
+						confirmed = "reproduced"
+					}
+				}
+				if res.Panicked {
+					confirmed = "reproduced"
+					detail = "native run panicked: " + res.PanicMsg
+				}
+			case g.f.Kind == "panic":
+				if res.Panicked {
+					confirmed = "reproduced"
+					detail = res.PanicMsg
+				}
+			case g.f.Kind == "frame":
+				// a store into a pre-existing object has no native trap; the harness's own
+				// snapshot assertion (if it failed natively) confirms it, otherwise the
+				// store site is reported for reading.
+				if len(res.Failed) > 0 || res.Panicked {
+					confirmed = "reproduced"
+				} else {
+					confirmed = "store-site"
+				}
+			}
+		} else if noReplay {
+			confirmed = "replay-skipped"
+		}
+		if confirmed == "unconfirmed" || confirmed == "not-run" {
+			inconclusive = append(inconclusive, fmt.Sprintf("counterexample for %s did not reproduce natively (%s): encoding or stub suspect", sig, confirmed))
+			continue
+		}
+		if k, ok := knownSig[sig]; ok {
+			knownLines = append(knownLines, fmt.Sprintf("KNOWN-FINDING: property=%s %s [%s]", prop, k.What, sig))
+			continue
+		}
+		violations++
+		rp := fmt.Sprintf("/verif/evidence/replay/%s_%d.json", prop, violations)
+		rc := ReplayCase{Harness: g.hname, Pkg: g.pkg, Vars: g.f.Vars, Choices: g.f.Choices, Outcome: g.f.Kind + ":" + g.f.Label}
+		for _, v := range g.f.Vars {
+			rc.Vals = append(rc.Vals, g.f.Model[v])
+		}
+		b, _ := json.MarshalIndent(map[string]interface{}{"property": prop, "signature": sig, "kind": g.f.Kind, "label": g.f.Label, "message": g.f.Msg,
+			"model": modelStrings(g.f.Model, g.f.Vars), "case": rc, "native": confirmed, "native_detail": detail, "decisions": g.f.Extra["decisions"]}, "", " ")
+		os.WriteFile(rp, b, 0o644)
+		violLines = append(violLines, fmt.Sprintf("VIOLATION property=%s replay=%s", prop, rp))
+		fmt.Printf("  violation: %s — %s (%s; native: %s %s) model=%v choices=%v\n", sig, g.f.Msg, g.f.Label, confirmed, detail, modelStrings(g.f.Model, g.f.Vars), g.f.Choices)
+		violSamples = append(violSamples, map[string]interface{}{"signature": sig, "model": modelStrings(g.f.Model, g.f.Vars), "choices": g.f.Choices, "message": g.f.Msg})
+	}
+	os.RemoveAll(workDir)
+
+	// ---- evidence ----
+	states, transitions, queries, instrs, nontrivial, paths := 0, 0, 0, 0, 0, 0
+	funcs := map[string]bool{}
+	natives := map[string]bool{}
+	var samples []interface{}
+	perH := []map[string]interface{}{}
+	for _, name := range r.order {
+		st := r.stats[name]
+		states += st.Completed
+		transitions += st.Decisions
+		queries += st.Queries
+		instrs += st.Instrs
+		nontrivial += st.NonTrivial
+		paths += st.Paths
+		for f := range st.Funcs {
+			funcs[f] = true
+		}
+		for _, s := range st.Samples {
+			if len(samples) < 12 {
+				samples = append(samples, s)
+			}
+		}
+		perH = append(perH, map[string]interface{}{"harness": name, "paths": st.Paths, "completed": st.Completed, "killed_by_assume": st.Killed,
+			"inconclusive": st.Aborted, "decisions": st.Decisions, "solver_queries": st.Queries, "ssa_instructions": st.Instrs, "reach": st.Reached, "wall_s": st.Wall.Seconds()})
+	}
+	var sat, unsat, unknown int
+	var solveT time.Duration
+	for _, e := range r.execs {
+		if e != nil && e.solver != nil {
+			sat += e.solver.nSat
+			unsat += e.solver.nUnsat
+			unknown += e.solver.nUnknown
+			solveT += e.solver.solveTime
+			for k := range e.nativesSeen {
+				natives[k] = true
+			}
+			e.solver.Close()
+		}
+	}
+	var repoFuncs, libFuncs []string
+	for f := range funcs {
+		if strings.Contains(f, repoMod) && !strings.Contains(f, "Verif") && !strings.Contains(f, "zz_verif") {
+			repoFuncs = append(repoFuncs, strings.ReplaceAll(f, repoMod, "liquid"))
+		} else if !strings.Contains(f, repoMod) {
+			libFuncs = append(libFuncs, f)
+		}
+	}
+	sort.Strings(repoFuncs)
+	sort.Strings(libFuncs)
+	var nat []string
+	for k := range natives {
+		nat = append(nat, k)
+	}
+	sort.Strings(nat)
+	for _, v := range violSamples {
+		samples = append(samples, v)
+	}
+	if len(samples) == 0 {
+		samples = append(samples, "no completed path")
+	}
+	wall := total + time.Since(t0)
+	ev := map[string]interface{}{
+		"property_id": prop,
+		"tier":        tier,
+		"seed":        seedFromEnv(),
+		"level":       "model_checking",
+		"wall_s":      wall.Seconds(),
+		"violations":  violations,
+		"assumptions": assumptionsFor(prop, nat),
+		"coverage": map[string]interface{}{
+			"states":                        states,
+			"transitions":                   transitions,
+			"traces_validated_against_impl": validated,
+			"samples":                       samples,
+			"evaluations":                   queries,
+			"distinct_nontrivial":           nontrivial,
+			"rule":                          "states = feasible symbolic paths executed to completion (each covers every value of its symbolic variables satisfying the path condition); transitions = solver-decided branch/case-split decisions; evaluations = SMT queries discharged; distinct_nontrivial = completed paths with a non-empty path condition; traces_validated = path models re-run natively (go test -overlay) with identical outcome and observations",
+			"exhaustive":                    len(inconclusive) == 0,
+			"paths_started":                 paths,
+			"solver":                        map[string]interface{}{"name": w.solverKind, "sat": sat, "unsat": unsat, "unknown": unknown, "time_s": solveT.Seconds(), "per_query_timeout_ms": w.timeoutMs},
+			"ssa_instructions_executed":     instrs,
+			"functions_encoded_repo":        repoFuncs,
+			"functions_encoded_lib_count":   len(libFuncs),
+			"functions_encoded_lib":         libFuncs,
+			"natives_and_stubs_exercised":   nat,
+			"harnesses":                     perH,
+			"bounds":                        boundsFor(r),
+			"translator_mismatches":         mismatches,
+			"inconclusive":                  inconclusive,
+			"known_findings_reproduced":     knownLines,
+			"load_and_ssa_build_s":          loadT.Seconds(),
+		},
+	}
+	if evidence != "" {
+		b, _ := json.MarshalIndent(ev, "", " ")
+		os.MkdirAll(filepath.Dir(evidence), 0o755)
+		if err := os.WriteFile(evidence, b, 0o644); err != nil {
+			fmt.Fprintln(os.Stderr, "cannot write evidence:", err)
+		}
+	}
+	// ---- console ----
+	for _, name := range r.order {
+		st := r.stats[name]
+		fmt.Printf("%s: paths=%d completed=%d killed=%d inconclusive=%d queries=%d instrs=%d reach=%v wall=%.1fs\n", name, st.Paths, st.Completed, st.Killed, st.Aborted, st.Queries, st.Instrs, st.Reached, st.Wall.Seconds())
+	}
+	fmt.Printf("property %s tier %s: states=%d transitions=%d queries=%d (sat %d unsat %d unknown %d, %.1fs) validated=%d mismatches=%d wall=%.1fs\n",
+		prop, tier, states, transitions, queries, sat, unsat, unknown, solveT.Seconds(), validated, mismatches, wall.Seconds())
+	for _, l := range knownLines {
+		fmt.Println(l)
+	}
+	for _, l := range violLines {
+		fmt.Println(l)
+	}
+	for _, l := range inconclusive {
+		fmt.Println("INCONCLUSIVE:", l)
+	}
+	if violations > 0 {
+		return 1
+	}
+	if len(inconclusive) > 0 {
+		return 2
+	}
+	return 0
+}
+
+func tailStr(s string, n int) string {
+	if len(s) > n {
+		return s[len(s)-n:]
+	}
+	return s
+}
+
+func seedFromEnv() int {
+	var s int
+	fmt.Sscan(os.Getenv("VERIF_SEED"), &s)
+	return s
+}
+
+func boundsFor(r *Runner) map[string]int {
+	out := map[string]int{}
+	for _, e := range r.execs {
+		if e == nil {
+			continue
+		}
+		for k, v := range e.bounds {
+			if v > out[k] {
+				out[k] = v
+			}
+		}
+	}
+	out["max_case_split_values"] = maxConcretize
+	out["max_back_edges_per_frame"] = r.w.maxBackEdges
+	out["max_ssa_instructions_per_path"] = r.w.maxInstr
+	return out
+}
+
+func assumptionsFor(prop string, natives []string) []string {
+	a := []string{
+		"bounded: every claim holds for all values of the symbolic variables within the bounds listed under coverage.bounds and in DESIGN.md for this property; nothing is claimed outside them",
+		"engine: own go/ssa symbolic executor (gosym); reflect, fmt and sync.Once are modelled (DESIGN §2.5-2.6), validated by native replay of path models",
+		"solver: z3 4.8.12 via one persistent process per worker; unknown/timeout/(error makes the run inconclusive, never a pass",
+		"Go map iteration order is insertion order except in harnesses that enable the symbolic-order stub",
+		"user Drop/struct methods are assumed pure and total",
+	}
+	if len(natives) > 0 {
+		a = append(a, "natives/stubs exercised with concrete arguments only: "+strings.Join(natives, ", "))
+	}
+	return a
 }
